@@ -24,6 +24,8 @@ type State struct {
 	pendingPanic *Val
 	measures  map[string]string
 	noLoadAssume bool
+	loopHeap  map[string]string // heap versions when the innermost cut loop was entered
+	loopFresh []string          // objects allocated on this path before that loop was entered
 	visited map[int]int
 	notes   []string
 }
